@@ -48,6 +48,8 @@ impl Ord for MKey {
 pub struct TreeCfg {
     /// cells of different sizes in one tree (open finding: rebalancing assumes uniform cells)
     pub variable_cells: bool,
+    /// only inserts of (mostly) fresh keys: no operation replaces a cell by one of another size
+    pub insert_only: bool,
     pub page: usize,
     pub cache: usize,
     pub min_keys: usize,
@@ -63,6 +65,9 @@ pub struct TreeCfg {
 impl TreeCfg {
     fn atoms(&self) -> Vec<String> {
         let mut a = vec![];
+        if self.insert_only {
+            a.push("ops.insert_only".to_string());
+        }
         if self.variable_cells {
             a.push("cells.variable_size".to_string());
         }
@@ -353,7 +358,7 @@ pub fn run_sequence_tagged(r: &mut Rng, tc: &TreeCfg, check: &str, witness: Opti
                     return false;
                 }
                 model.insert(key, p);
-            } else if k < 12 {
+            } else if k < 12 && !tc.insert_only {
                 let key = gen_key(r, &tc.keys, i, tc.nops, tc.order);
                 let p = payload(r, tc.payloads, i as u64, tc.variable_cells);
                 ops.push(format!("upsert {:?} len {}", key.0, p.len()));
@@ -641,7 +646,7 @@ pub fn clean_cfgs() -> Vec<TreeCfg> {
     use VKeyKind::*;
     let mut v = vec![];
     for (order, keys) in [("asc", vec![BigUInt]), ("desc", vec![BigUInt]), ("random", vec![BigUInt]), ("zigzag", vec![BigUInt]), ("dups", vec![BigUInt]), ("random", vec![BigInt]), ("random", vec![Int]), ("random", vec![Text]), ("random", vec![Double]), ("random", vec![BigUInt, Int])] {
-        v.push(TreeCfg { variable_cells: false, page: 4096, cache: 4000, min_keys: 3, siblings: 2, keys, order, payloads: &[40], nops: 300, removes: false, updates: false });
+        v.push(TreeCfg { variable_cells: false, insert_only: false, page: 4096, cache: 4000, min_keys: 3, siblings: 2, keys, order, payloads: &[40], nops: 300, removes: false, updates: false });
     }
     v
 }
@@ -651,7 +656,7 @@ pub fn random_cfg(r: &mut Rng, mode: &str) -> TreeCfg {
     use VKeyKind::*;
     let keysets: Vec<Vec<VKeyKind>> = vec![vec![BigUInt], vec![BigInt], vec![Int], vec![Text], vec![Double], vec![BigUInt, Int], vec![Text, BigUInt]];
     let mut tc = TreeCfg {
-        variable_cells: false,
+        variable_cells: false, insert_only: false,
         page: 4096,
         // the cache always holds the whole tree in the clean stratum (eviction under random access loses keys: witness small_cache)
         cache: 4000,
@@ -675,8 +680,25 @@ pub fn random_cfg(r: &mut Rng, mode: &str) -> TreeCfg {
         tc.variable_cells = true;
         tc.payloads = *r.pick(&[&[1usize, 8, 40][..], &[40, 120, 300][..], &[8, 600][..]]);
     }
+    if mode_atoms.contains(&"insertonly") {
+        tc.insert_only = true;
+        tc.removes = false;
+        tc.updates = false;
+    }
+    for a in &mode_atoms {
+        if let Some(n) = a.strip_prefix("nops") {
+            tc.nops = n.parse().unwrap_or(tc.nops);
+        }
+    }
     if mode_atoms.contains(&"pages") {
         tc.page = *r.pick(&[4096usize, 8192, 16384, 32768, 65536]);
+    }
+    if mode_atoms.contains(&"mixed") {
+        // cells of very different sizes in one leaf, up to (nearly) the largest cell that still stays in the page
+        tc.variable_cells = true;
+        let big = (tc.page - 80) / tc.min_keys - 140;
+        let sets: Vec<Vec<usize>> = vec![vec![8, big], vec![8, big / 7, big / 3, big], vec![1, 40, big / 2], vec![24, big * 3 / 4], vec![8, 8, 8, big]];
+        tc.payloads = Box::leak(r.pick(&sets).clone().into_boxed_slice());
     }
     if mode_atoms.contains(&"smallcache") {
         tc.cache = 24;
@@ -701,7 +723,7 @@ pub fn random_cfg(r: &mut Rng, mode: &str) -> TreeCfg {
 /// Deterministic witnesses of the open findings (fixed seeds and configurations).
 pub fn witnesses(check: &str, only: Option<usize>) {
     use VKeyKind::*;
-    let base = TreeCfg { variable_cells: false, page: 4096, cache: 1000, min_keys: 3, siblings: 2, keys: vec![BigUInt], order: "random", payloads: &[40], nops: 400, removes: false, updates: false };
+    let base = TreeCfg { variable_cells: false, insert_only: false, page: 4096, cache: 1000, min_keys: 3, siblings: 2, keys: vec![BigUInt], order: "random", payloads: &[40], nops: 400, removes: false, updates: false };
     let list: Vec<(&str, &str, TreeCfg, u64)> = vec![
         ("variable_size_cells", "cells of different sizes in one tree (payloads 1..300 bytes, random keys): rebalancing corrupts pages (lookups miss keys, EINVAL page reads, SIGSEGV in Reassembler::reassemble); same through SQL with a UNIQUE index on variable-length TEXT", TreeCfg { variable_cells: true, payloads: &[1, 8, 40, 120, 300], ..base.clone() }, 11),
         ("large_cells", "uniform cells of 900 bytes (4 per 4 KiB page): panic 'index out of bounds' in storage/core/buffer.rs or lost keys after a few dozen inserts", TreeCfg { payloads: &[900], order: "zigzag", siblings: 1, nops: 120, ..base.clone() }, 12),
@@ -729,11 +751,163 @@ pub fn witnesses(check: &str, only: Option<usize>) {
     }
 }
 
+
+/// Bounded-exhaustive stratum for cells of different sizes: EVERY assignment of sizes from a small palette to k fresh
+/// keys, for a set of key orders (all permutations for k <= 5, a fixed seeded sample above), inserted into a fresh
+/// tree (4 KiB pages, min_keys 3); after every insert every key inserted so far is looked up, at the end the scan,
+/// the structure walk and the ownership audit run. Failures report under `<check>:<oracle>:<kind>:[stratum.small-exhaustive]`.
+pub fn small_exhaustive(check: &str, tier: &str, shard: u64, nshards: u64) {
+    let k: usize = std::env::var("AXV_SE_K").ok().and_then(|v| v.parse().ok()).unwrap_or(7);
+    let palette: Vec<usize> = std::env::var("AXV_SE_PALETTE").ok().map(|v| v.split(',').filter_map(|x| x.parse().ok()).collect()).unwrap_or(vec![8, 180, 350, 1200]);
+    let nperm: usize = std::env::var("AXV_SE_PERMS").ok().and_then(|v| v.parse().ok()).unwrap_or(if tier == "thorough" { 120 } else { 12 });
+    // key orders
+    let mut perms: Vec<Vec<usize>> = vec![];
+    let ident: Vec<usize> = (0..k).collect();
+    if k <= 5 {
+        permute(&mut ident.clone(), 0, &mut perms);
+    } else {
+        perms.push(ident.clone());
+        perms.push(ident.iter().rev().cloned().collect());
+        // ascending prefix, then the gaps from the right / from the left
+        for m in 3..k {
+            let mut p: Vec<usize> = (0..k).filter(|i| i % 2 == 0).take(m).collect();
+            let rest: Vec<usize> = (0..k).filter(|i| !p.contains(i)).collect();
+            let mut a = p.clone();
+            a.extend(rest.iter().rev());
+            p.extend(rest.iter());
+            perms.push(a);
+            perms.push(p);
+        }
+        let mut r = Rng::new(0x5EED_5EED ^ k as u64);
+        while perms.len() < nperm {
+            let mut p = ident.clone();
+            for i in (1..k).rev() {
+                p.swap(i, r.usize(i + 1));
+            }
+            if !perms.contains(&p) {
+                perms.push(p);
+            }
+        }
+    }
+    let nsizes = palette.len().pow(k as u32);
+    let total = nsizes * perms.len();
+    let dir = fresh_dir("se");
+    let c = cfg(4096, 64, 2, 3, 2);
+    let mut idx = 0usize;
+    report::about_to("btree-small-exhaustive", &format!("k={} palette={:?} perms={}", k, palette, perms.len()));
+    for (pi, perm) in perms.iter().enumerate() {
+        for sz in 0..nsizes {
+            idx += 1;
+            if (idx as u64) % nshards != shard % nshards {
+                continue;
+            }
+            tick();
+            let mut sizes = vec![];
+            let mut x = sz;
+            for _ in 0..k {
+                sizes.push(palette[x % palette.len()]);
+                x /= palette.len();
+            }
+            let script: Vec<(u64, usize)> = perm.iter().map(|r| ((*r as u64 + 1) * 10, sizes[*r])).collect();
+            let verdict = run_script(&dir, c, &script, check);
+            report::eval(Some(fnv(format!("se|{}|{}|{}", k, pi, sz).as_bytes())));
+            report::count("small_exhaustive_sequences", 1);
+            if let Err((oracle, kind, detail)) = verdict {
+                let _ = take_panics();
+                report::count(&format!("small_exhaustive_failures.{}.{}", oracle, kind), 1);
+                if (check == "C11") != (oracle == "ownership") {
+                    continue; // map / structure / panic failures are C10's, ownership failures are C11's
+                }
+                // the one shape with an open finding on this tree: every cell has the largest palette size (uniform large cells)
+                let all_largest = sizes.iter().all(|s| *s == *palette.iter().max().unwrap());
+                report::violation(
+                    &format!("{}:{}:{}:[stratum.small-exhaustive{}]", check, oracle, kind, if all_largest { ",all-cells-largest" } else if sizes.iter().any(|s| *s == *palette.iter().max().unwrap()) { ",has-largest-cell" } else { "" }),
+                    &detail,
+                    J::obj().with("kind", "btree-script").with("inserts(key,payload_len)", J::Arr(script.iter().map(|(k, l)| J::Str(format!("{}:{}", k, l))).collect())),
+                );
+            }
+        }
+    }
+    report::done_with();
+    report::count("small_exhaustive_total_in_bound", if shard % nshards == 0 { total as i64 } else { 0 });
+    rm_dir(&dir);
+}
+
+fn permute(a: &mut Vec<usize>, i: usize, out: &mut Vec<Vec<usize>>) {
+    if i == a.len() {
+        out.push(a.clone());
+        return;
+    }
+    for j in i..a.len() {
+        a.swap(i, j);
+        permute(a, i + 1, out);
+        a.swap(i, j);
+    }
+}
+
+fn run_script(dir: &std::path::Path, c: axmosdb::DBConfig, script: &[(u64, usize)], check: &str) -> Result<(), (String, String, String)> {
+    let path = dir.join(DB_FILE);
+    let _ = std::fs::remove_file(&path);
+    let res = std::panic::catch_unwind(std::panic::AssertUnwindSafe(|| -> Result<(), (String, String, String)> {
+        let pager = VPager::create(path.clone(), c).map_err(|e| ("setup".to_string(), "pager-create".to_string(), e))?;
+        let tree = VTree::create(&pager, &[VKeyKind::BigUInt], 3, 2).map_err(|e| ("setup".to_string(), "tree-create".to_string(), e))?;
+        let mut model: BTreeMap<u64, Vec<u8>> = BTreeMap::new();
+        for (i, (key, len)) in script.iter().enumerate() {
+            let mut p = format!("p{}:", i).into_bytes();
+            while p.len() < *len {
+                p.push(b'a' + (p.len() % 23) as u8);
+            }
+            p.truncate((*len).max(1));
+            if let Err(e) = tree.insert(&[VKey::U(*key)], &p) {
+                return Err(("map".into(), "insert-failed".into(), format!("insert #{} of key {} ({} bytes) => {}", i, key, len, e)));
+            }
+            model.insert(*key, p);
+            for (mk, mp) in &model {
+                match tree.search(&[VKey::U(*mk)]) {
+                    Ok(Some(got)) if got == *mp => {}
+                    Ok(Some(_)) => return Err(("map".into(), "lookup-wrong-payload".into(), format!("after insert #{}: key {} has another payload", i, mk))),
+                    Ok(None) => return Err(("map".into(), "lookup-misses-key".into(), format!("after insert #{} (key {}): key {} is gone", i, key, mk))),
+                    Err(e) => return Err(("map".into(), "lookup-error".into(), format!("after insert #{}: search {} => {}", i, mk, e))),
+                }
+                report::count("lookups_checked", 1);
+            }
+        }
+        let rows = tree.scan().map_err(|e| ("map".to_string(), "scan-error".to_string(), e))?;
+        let same = rows.len() == model.len() && rows.iter().zip(model.iter()).all(|((k, p), (mk, mp))| k.len() == 1 && matches!(&k[0], VKey::U(x) if x == mk) && p == mp);
+        if !same {
+            return Err(("map".into(), "scan-differs".into(), format!("forward scan returns {} entries, the model holds {}", rows.len(), model.len())));
+        }
+        report::count("scans_checked", 1);
+        match audit(&pager, &[tree.root()], Some(model.len())) {
+            Ok(_) => report::count("audits", 1),
+            Err((inv, detail)) => {
+                let own = ["double-owner", "leak", "free-list-tail", "free-list-cycle", "page-out-of-range", "type-confusion"].contains(&inv.as_str());
+                if (check == "C11") == own {
+                    return Err((if own { "ownership".into() } else { "structure".into() }, inv, detail));
+                }
+            }
+        }
+        Ok(())
+    }));
+    match res {
+        Ok(v) => v,
+        Err(_) => {
+            let p = take_panics();
+            let site = p.first().map(|x| panic_site(&x.location)).unwrap_or_else(|| "?".into());
+            Err(("panic".into(), site, format!("panic inside a tree operation: {}", p.first().map(|x| x.message.clone()).unwrap_or_default())))
+        }
+    }
+}
+
 pub fn run_sequence(r: &mut Rng, tc: &TreeCfg, check: &str) -> bool {
     run_sequence_tagged(r, tc, check, None)
 }
 
 pub fn run(check: &str, seed: u64, tier: &str, shard: u64, mode: Option<&str>) {
+    if mode == Some("smallex") {
+        small_exhaustive(check, tier, shard, 16);
+        return;
+    }
     if mode == Some("dropreuse") {
         let mut master = Rng::new(seed ^ shard);
         for i in 0..40 {
